@@ -16,12 +16,18 @@ def run(rep, tier):
 
     pool = cf.ThreadPoolExecutor(1)
     fut = pool.submit(xh.run_targets, ["harness.C05_image.check_image", "harness.C05_image.twin_nested_list_reached"], 600 if tier == "quick" else 1800)
-    jobs = ezrun.corpus_jobs(tier, boot.seed())
+    jobs = [j for j in ezrun.corpus_jobs(tier, boot.seed()) if j.get("only_for") in (None, "C05")]
     for j in jobs:
         j["modes"] = ["strict"]
         j["known"] = rep._known
     results = gen.pmap(ezcheck.analyze, jobs)
-    progs, ops, nodes, gen_fail = ezrun.fold(rep, results, jobs, {"strict"})
+    def not_analysable(job, r):
+        # every package of this corpus generates and loads on the unchanged tree; one that does not cannot be judged and is reported
+        why = (r["gen"] or {}).get("exc_msg") if not (r["gen"] or {}).get("ok") else str({k: v for k, v in (r.get("import") or {}).get("modules", {}).items() if v != "ok"})[:200]
+        rep.violation(ezrun.classify_unanalysable(job, r), {"schema": job["schema"], "queries": job["queries"], "config": job.get("config") or {}, "q": "package"},
+                      f"a package of the corpus does not generate / load, its models cannot be judged: {why}")
+
+    progs, ops, nodes, gen_fail = ezrun.fold(rep, results, jobs, {"strict"}, not_analysable)
     xres = fut.result()
     xh.fold(rep, "harness.C05_image", xres)
     rep.coverage["image_lemma"] = [{"target": r.target.rsplit(".", 1)[-1], "status": r.status, "wall_s": round(r.wall, 1)} for r in xres]
